@@ -56,7 +56,7 @@ claimed = {
    note="Timing clauses decided one-sidedly: idle gaps and stalls are many multiples of T8; 'slow but steady' and segmentation cases carry a measured max-gap premise and are discarded when the harness itself stalled.",
    technique="differential runtime monitor (reference frame acceptor) + segmenting/stalling raw peer with delivery oracle and allocation meter; race detector"),
  "C11": dict(level=F,
-   text="368 (quick) / ~950 (thorough) single link faults, each on a fresh real connection: FIN and RST cuts after exactly k bytes read/written for every k of the 14-byte prefix of every exchange (select both ways, data primary/reply/peer primary, linktest both ways) plus body offsets; stalls covered by T6/T7/T8/write timeout/linktest, the T8 stall placed after every K=1..16 bytes of a frame; Select.rsp status 2..255; 0..8 refused dials / failed listens over a back-off configuration grid. Recovery to Selected + round trip within 6 connection opportunities; requested reconnect delays (hook) vs the reference sequence; re-dial gaps (sound direction); Reconnects(); no dial after Close. Pure back-off function over a grid incl. overflow/Inf/NaN." + HELD,
+   text="368 (quick) / ~2600 (thorough: both TCP roles for every role-agnostic fault, and every fault once more with delays injected at the recovery machinery's suspension points) single link faults, each on a fresh real connection: FIN and RST cuts after exactly k bytes read/written for every k of the 14-byte prefix of every exchange (select both ways, data primary/reply/peer primary, linktest both ways) plus body offsets; stalls covered by T6/T7/T8/write timeout/linktest, the T8 stall placed after every K=1..16 bytes of a frame; Select.rsp status 2..255; 0..8 refused dials / failed listens over a back-off configuration grid. Recovery to Selected + round trip within 6 connection opportunities; requested reconnect delays (hook) vs the reference sequence; re-dial gaps (sound direction); Reconnects(); no dial after Close. Pure back-off function over a grid incl. overflow/Inf/NaN." + HELD,
    note="'Eventually' is decided as bounded progress (6 opportunities). hsmsss transport; SECS-I line cuts are exercised by C18's middlebox, not here.",
    technique="fault enumeration by a byte-exact cutting/stalling peer + hook-reported back-off delays vs reference sequence"),
  "C12": dict(level=E,
@@ -76,7 +76,7 @@ claimed = {
    note="Parse-back is judged per leaf (the property claims it for elements); NaN payload bits excluded.",
    technique="differential runtime monitor between the two renderers + parse-back oracle"),
  "C16": dict(level=E,
-   text="~100k (quick) / 2.4M (thorough) recover-wrapped constructor calls over Go types x byte sizes x values at/beyond every bound x call shapes, judged by a reference clamp model (no panic, clamp not wrap, errors for unsupported/unparsable, cross-shape equality), an errored-item battery (never Equal, refused by NewDataMessage / NewDataMessageFromHeader / Derive.Build, nested to depth 5), and a wire half: 864 (quick) sends of errored items through every send call of live connections with the peer's log proving that no byte left." + HELD,
+   text="~100k (quick) / ~12M (thorough) recover-wrapped constructor calls over Go types x byte sizes x values at/beyond every bound x call shapes, judged by a reference clamp model (no panic, clamp not wrap, errors for unsupported/unparsable, cross-shape equality), an errored-item battery (never Equal, refused by NewDataMessage / NewDataMessageFromHeader / Derive.Build, nested to depth 5), and a wire half: 864 (quick) sends of errored items through every send call of live connections with the peer's log proving that no byte left." + HELD,
    note="Where the docs explicitly document an error instead of a clamp both are accepted (never another value). Typed-nil item pointers are outside the statement (noted, not judged). Wire half: hsmsss.",
    technique="reference clamp model + recover-wrapped constructor fuzzing; wire observer (scripted peer log) for refused sends"),
  "C17": dict(level=E,
@@ -88,7 +88,7 @@ claimed = {
    note="Two genuine defects found: a block ACKed during link teardown whose message was then dropped is repaired (fix: commit); stale control characters consumed as handshake answers after a late grant remains a known finding (not a small repair). Overlaps of simultaneous sends are sampled; liveness is bounded (45 s send watchdog).",
    technique="fault-injecting middlebox between two real endpoints + offline exactly-once/order/retry-bound checker over the recorded line history"),
  "C19": dict(level=E,
-   text="Pure half: the two linktest decision functions (verif export) vs a reference written from the documented rules, exhaustive over a small ordered domain, and the whole failure-accounting loop folded over ALL ~300k (quick) / 2.4M (thorough) observation histories of length <=6/7 x threshold 1..4 x suppression on/off, plus two reducer-independent invariants. E2E half: scripted peers (silent, answering, alive-but-not-answering with suppression on/off, chatty, withheld reply, silent peer while the local side keeps sending, life shown by a frame whose inline handler outlasts T6) on real connections; probe counts seen by the peer, still-connected checks, sound lower bound on the drop time, ControlMetrics vs peer counts." + HELD,
+   text="Pure half: the two linktest decision functions (verif export) vs a reference written from the documented rules, exhaustive over a small ordered domain, and the whole failure-accounting loop folded over ALL ~300k (quick) / ~19M (thorough) observation histories of length <=6/8 x threshold 1..4 x suppression on/off, plus two reducer-independent invariants. E2E half: scripted peers (silent, answering, alive-but-not-answering with suppression on/off, chatty, withheld reply, silent peer while the local side keeps sending, life shown by a frame whose inline handler outlasts T6) on real connections; probe counts seen by the peer, still-connected checks, sound lower bound on the drop time, ControlMetrics vs peer counts." + HELD,
    note="E2E timing is decided one-sidedly (counts and sound lower bounds); the chatty scenario needs a measured premise and is discarded otherwise.",
    technique="exhaustive reference-fold comparison of the real reducer + scripted-peer scenario monitors under the race detector"),
 }
